@@ -158,6 +158,11 @@ def units(tier, seed=0):
     us += famcheck.family_units({'sys'}, archs, TABLES, only=heavy, sym_sys=CTRL, tag='/ctrl-sym',
                                 fix={'opcode': 0b0010, 'type': 0})
     us += famcheck.family_units({'sys'}, archs, TABLES, only=cop, sym_sys=COPROC)
+    # coprocessor gating with the Virtualization Extensions (mode symbolic incl. Hyp; NSACR applies in Hyp mode, CPACR
+    # does not): cp0..cp13 with HCPTR.TCP symbolic (a trapping access is outside the claim)
+    vcop = [n for n in cop if n.startswith(('McrMcr2', 'CdpCdp2'))] if tier == 'quick' else cop
+    us += famcheck.family_units({'sys'}, [7], TABLES, only=vcop, virt=True, tag='/virt',
+                                sym_sys=dict(COPROC, hcptr=0x3FFF))
     us += famcheck.family_units({'br_misc'}, archs, TABLES, only=HINTS)
     return us
 
